@@ -41,6 +41,9 @@ type TF struct {
 	True  *Term
 	False *Term
 	vars  map[string]*Term
+	varCache   map[int][]*Term
+	splitDepth int
+	divLike    bool
 }
 
 func NewTF() *TF {
@@ -227,6 +230,35 @@ func (f *TF) Mul(a, b *Term) *Term {
 			return a
 		}
 	}
+	if !b.IsConst() && b.Op == "ite" {
+		if n := iteConstLeaves(b, 8); n > 0 && n <= 64 {
+			return f.liftIte(a, b, f.Mul, true)
+		}
+	}
+	if !a.IsConst() && a.Op == "ite" && !b.IsConst() {
+		if n := iteConstLeaves(a, 8); n > 0 && n <= 64 {
+			return f.liftIte(b, a, f.Mul, true)
+		}
+	}
+	if !b.IsConst() {
+		// small-range factor: enumerate its values (keeps the arithmetic linear for the solver)
+		if sm, other := smallRange(a), b; sm != nil {
+			return f.caseSplit(a, sm, func(c *Term) *Term { return f.Mul(other, c) })
+		}
+		if sm, other := smallRange(b), a; sm != nil {
+			return f.caseSplit(b, sm, func(c *Term) *Term { return f.Mul(other, c) })
+		}
+		if !a.IsConst() && f.splitDepth < 3 {
+			for _, t := range []*Term{a, b} {
+				if v := f.soleSmallVar(t); v != nil {
+					f.splitDepth++
+					r := f.splitOn(v, a, b, f.Mul)
+					f.splitDepth--
+					return r
+				}
+			}
+		}
+	}
 	var lo, hi *big.Int
 	if a.Lo != nil && a.Hi != nil && b.Lo != nil && b.Hi != nil {
 		lo, hi = minmax4(new(big.Int).Mul(a.Lo, b.Lo), new(big.Int).Mul(a.Lo, b.Hi), new(big.Int).Mul(a.Hi, b.Lo), new(big.Int).Mul(a.Hi, b.Hi))
@@ -234,6 +266,198 @@ func (f *TF) Mul(a, b *Term) *Term {
 		lo = new(big.Int).Mul(a.Lo, b.Lo)
 	}
 	return f.mk(&Term{Op: "*", Sort: SInt, Args: []*Term{a, b}, Lo: lo, Hi: hi})
+}
+
+const smallRangeMax = 40
+
+// smallRange returns [lo,hi] if t is non-constant with at most smallRangeMax possible values.
+func smallRange(t *Term) []int64 {
+	if t.IsConst() || t.Lo == nil || t.Hi == nil {
+		return nil
+	}
+	d := new(big.Int).Sub(t.Hi, t.Lo)
+	if !d.IsInt64() || d.Int64() >= smallRangeMax || !t.Lo.IsInt64() || !t.Hi.IsInt64() {
+		return nil
+	}
+	return []int64{t.Lo.Int64(), t.Hi.Int64()}
+}
+
+// soleSmallVar: if t depends on exactly one variable and that variable has a small range, return it.
+func (f *TF) soleSmallVar(t *Term) *Term {
+	if t.IsConst() {
+		return nil
+	}
+	vs := f.varsOf(t)
+	if len(vs) != 1 {
+		return nil
+	}
+	if vs[0].Sort == SInt && smallRange(vs[0]) != nil {
+		return vs[0]
+	}
+	return nil
+}
+
+// iteConstLeaves: t is a (nested) ite whose leaves are all constants; returns the number of leaves (0 if not).
+func iteConstLeaves(t *Term, budget int) int {
+	if t.IsConst() {
+		return 1
+	}
+	if t.Op != "ite" || budget <= 0 {
+		return 0
+	}
+	l := iteConstLeaves(t.Args[1], budget-1)
+	if l == 0 {
+		return 0
+	}
+	r := iteConstLeaves(t.Args[2], budget-1)
+	if r == 0 {
+		return 0
+	}
+	return l + r
+}
+
+// liftIte pushes a binary operation with a non-constant left operand into an ite-of-constants right operand.
+func (f *TF) liftIte(a, b *Term, op func(x, y *Term) *Term, zeroOK bool) *Term {
+	if b.IsConst() {
+		if !zeroOK && b.C.Sign() == 0 {
+			return f.I64(0)
+		}
+		return op(a, b)
+	}
+	return f.Ite(b.Args[0], f.liftIte(a, b.Args[1], op, zeroOK), f.liftIte(a, b.Args[2], op, zeroOK))
+}
+
+func (f *TF) varsOf(t *Term) []*Term {
+	if f.varCache == nil {
+		f.varCache = map[int][]*Term{}
+	}
+	if v, ok := f.varCache[t.ID]; ok {
+		return v
+	}
+	var out []*Term
+	switch t.Op {
+	case "const":
+	case "var":
+		out = []*Term{t}
+	default:
+		seen := map[int]bool{}
+		for _, a := range t.Args {
+			for _, v := range f.varsOf(a) {
+				if !seen[v.ID] {
+					seen[v.ID] = true
+					out = append(out, v)
+				}
+			}
+			if len(out) > 3 {
+				break
+			}
+		}
+	}
+	f.varCache[t.ID] = out
+	return out
+}
+
+// subst rebuilds t with variable v replaced by constant c (through the simplifying constructors).
+func (f *TF) subst(t, v, c *Term, memo map[int]*Term) *Term {
+	if t == v {
+		return c
+	}
+	if t.Op == "const" || t.Op == "var" {
+		return t
+	}
+	if r, ok := memo[t.ID]; ok {
+		return r
+	}
+	dep := false
+	for _, x := range f.varsOf(t) {
+		if x == v {
+			dep = true
+		}
+	}
+	if !dep && len(f.varsOf(t)) <= 3 {
+		memo[t.ID] = t
+		return t
+	}
+	as := make([]*Term, len(t.Args))
+	for i, a := range t.Args {
+		as[i] = f.subst(a, v, c, memo)
+	}
+	var r *Term
+	switch t.Op {
+	case "+":
+		r = f.Add(as[0], as[1])
+	case "-":
+		r = f.Sub(as[0], as[1])
+	case "*":
+		r = f.Mul(as[0], as[1])
+	case "div":
+		if as[1].IsConst() && as[1].C.Sign() == 0 {
+			r = f.I64(0)
+		} else {
+			r = f.Div(as[0], as[1])
+		}
+	case "mod":
+		if as[1].IsConst() && as[1].C.Sign() == 0 {
+			r = f.I64(0)
+		} else {
+			r = f.Mod(as[0], as[1])
+		}
+	case "ite":
+		r = f.Ite(as[0], as[1], as[2])
+	case "=":
+		r = f.Eq(as[0], as[1])
+	case "<":
+		r = f.Lt(as[0], as[1])
+	case "<=":
+		r = f.Le(as[0], as[1])
+	case "and":
+		r = f.And(as...)
+	case "or":
+		r = f.Or(as...)
+	case "not":
+		r = f.Not(as[0])
+	case "byteof":
+		r = f.ByteOf(as[0], t.N2, t.N)
+	case "bitlen":
+		r = f.BitLen(as[0])
+	case "toreal":
+		r = f.ToReal(as[0])
+	default:
+		r = f.mk(&Term{Op: t.Op, Sort: t.Sort, Name: t.Name, N: t.N, N2: t.N2, Args: as})
+	}
+	memo[t.ID] = r
+	return r
+}
+
+// splitOn enumerates the values of the small-range variable v in the binary operation op(a,b).
+func (f *TF) splitOn(v *Term, a, b *Term, op func(x, y *Term) *Term) *Term {
+	r := smallRange(v)
+	var res *Term
+	for c := r[1]; c >= r[0]; c-- {
+		ct := f.I64(c)
+		memo := map[int]*Term{}
+		x, y := f.subst(a, v, ct, memo), f.subst(b, v, ct, memo)
+		var val *Term
+		if y.IsConst() && y.Sort == SInt && y.C.Sign() == 0 && op != nil && f.divLike {
+			val = f.I64(0)
+		} else {
+			val = op(x, y)
+		}
+		if res == nil {
+			res = val
+		} else {
+			res = f.Ite(f.Eq(v, ct), val, res)
+		}
+	}
+	return res
+}
+
+func (f *TF) caseSplit(v *Term, r []int64, g func(c *Term) *Term) *Term {
+	res := g(f.I64(r[1]))
+	for c := r[1] - 1; c >= r[0]; c-- {
+		res = f.Ite(f.Eq(v, f.I64(c)), g(f.I64(c)), res)
+	}
+	return res
 }
 
 func floorDiv(a, b *big.Int) *big.Int {
@@ -261,6 +485,29 @@ func (f *TF) Div(a, b *Term) *Term {
 	if b.IsConst() && b.C.Cmp(big1) == 0 {
 		return a
 	}
+	if !b.IsConst() && b.Op == "ite" {
+		if n := iteConstLeaves(b, 8); n > 0 && n <= 64 {
+			return f.liftIte(a, b, f.Div, false)
+		}
+	}
+	if !b.IsConst() {
+		if sm := smallRange(b); sm != nil {
+			return f.caseSplit(b, sm, func(c *Term) *Term {
+				if c.C.Sign() == 0 {
+					return f.I64(0) // unreachable: callers exclude a zero divisor
+				}
+				return f.Div(a, c)
+			})
+		}
+		if v := f.soleSmallVar(b); v != nil && f.splitDepth < 3 {
+			f.splitDepth++
+			f.divLike = true
+			r := f.splitOn(v, a, b, f.Div)
+			f.divLike = false
+			f.splitDepth--
+			return r
+		}
+	}
 	var lo, hi *big.Int
 	if b.IsConst() && b.C.Sign() > 0 {
 		if a.Lo != nil {
@@ -282,6 +529,16 @@ func (f *TF) Div(a, b *Term) *Term {
 func (f *TF) Mod(a, b *Term) *Term {
 	if a.IsConst() && b.IsConst() && b.C.Sign() != 0 {
 		return f.Int(euMod(a.C, b.C))
+	}
+	if !b.IsConst() {
+		if sm := smallRange(b); sm != nil {
+			return f.caseSplit(b, sm, func(c *Term) *Term {
+				if c.C.Sign() == 0 {
+					return f.I64(0)
+				}
+				return f.Mod(a, c)
+			})
+		}
 	}
 	var lo, hi *big.Int
 	if b.IsConst() && b.C.Sign() > 0 {
